@@ -1,7 +1,11 @@
 // C16 harness, special routes: burgers (Assembly::BurgersAssembler::assemble_scalar_matrix / assemble_matrix),
 // burgersjob (BurgersScalar/BlockedMatrixAssemblyJob on a DomainAssembler with 0 worker threads), voxel
 // (VoxelAssembly::VoxelPoissonAssembler / VoxelBurgersAssembler), voxeldefo (VoxelDefoAssembler), and the blocked
-// common operators (Identity/Laplace/DuDvOperatorBlocked) on the classic and domain routes.
+// common operators (Identity/Laplace/DuDvOperatorBlocked, and the user operator UGradOperatorBlocked) on the classic and domain routes.
+// Matrix-free routes (spec/Assembly.tla: MatrixFreeRoutes): apply / apply2 (BilinearOperatorAssembler::apply1/2 with blocked vectors),
+// burgersvec (BurgersAssembler::assemble_vector), burgersjobvec / burgersjobself (Burgers{Blocked,Scalar}VectorAssemblyJob),
+// voxelvec (VoxelBurgersAssembler::assemble_vector), gradopvec (GradOperatorAssembler::assemble with vectors): the harness reports
+// route(x) against (matrix of the reference route) * x, both repeat semantics, and the scaled integers of (v e_row)^T route(P).
 // Included by harness/c16_assembly_s<shape>.cpp after defining C16_VOXEL (1 for hypercube shapes).
 #pragma once
 #include "vasm16.hpp"
@@ -41,6 +45,35 @@ namespace va
     }
     return b;
   }
+
+  // a USER operator written against the documented BilinearOperator interface (spec/Assembly.tla: ugrad_b):
+  // block (r,c) = (r + 2c - 2) * d_c(trial) * test   (r, c = 1..dim) -- gradient-type, no symmetry of any kind
+  template<int dim_>
+  class UGradOperatorBlocked : public Assembly::BilinearOperator
+  {
+  public:
+    static constexpr int BlockHeight = dim_;
+    static constexpr int BlockWidth = dim_;
+    static constexpr TrafoTags trafo_config = TrafoTags::none;
+    static constexpr SpaceTags test_config = SpaceTags::value;
+    static constexpr SpaceTags trial_config = SpaceTags::grad;
+    template<typename AsmTraits_>
+    class Evaluator : public Assembly::BilinearOperator::Evaluator<AsmTraits_>
+    {
+    public:
+      typedef typename AsmTraits_::DataType DataType;
+      typedef Tiny::Matrix<DataType, dim_, dim_> ValueType;
+      typedef typename AsmTraits_::TestBasisData TestBasisData;
+      typedef typename AsmTraits_::TrialBasisData TrialBasisData;
+      explicit Evaluator(const UGradOperatorBlocked&) {}
+      ValueType eval(const TrialBasisData& phi, const TestBasisData& psi)
+      {
+        ValueType m(DataType(0));
+        for(int r = 0; r < dim_; ++r) for(int c = 0; c < dim_; ++c) m[r][c] = DataType(r + 2 * c + 1) * phi.grad[c] * psi.value;
+        return m;
+      }
+    };
+  };
 
   // greedy colouring of the cells (cells sharing a vertex get different colours): what the voxel assemblers require
   template<class Mesh_> std::vector<int> greedy_coloring(const Mesh_& mesh)
@@ -140,6 +173,7 @@ namespace va
       if(name == "mass") { Assembly::Common::IdentityOperator op; classic_scalar(A, op, cf, DT(1)); }
       else if(name == "laplace") { Assembly::Common::LaplaceOperator op; classic_scalar(A, op, cf, DT(1)); }
       else if(name == "dudv") { Assembly::Common::DuDvOperator op(int(p.at(0)), int(p.at(1))); classic_scalar(A, op, cf, DT(1)); }
+      else if(name == "trialderiv") { Assembly::Common::TrialDerivativeOperator op(int(p.at(0))); classic_scalar(A, op, cf, DT(1)); }
       else if(name == "conv") burgers_scalar(A, par_of(name, p, DT(1)), cf);
       else throw std::runtime_error("scalar_ref: operator " + name);
       return A;
@@ -227,6 +261,43 @@ namespace va
         }
       }
       obs["twice"] = twice;
+      // matrix-free: BurgersScalarVectorAssemblyJob adds A x onto the vector (the scaling is in the parameters)
+      vj::Value vr = vj::Value::array();
+      if(job.has("vroutes"))
+      {
+        for(std::size_t k = 0; k < job["vroutes"].size(); ++k)
+        {
+          const std::string r = job["vroutes"][k].as_str();
+          if(r != "burgersjobvec") throw std::runtime_error("scalar matrix-free route " + r + " is not compiled into this harness");
+          const Index n = A.rows();
+          Vec x(n), y(n, DT(0));
+          for(Index j = 0; j < n; ++j) x(j, DT(double(long((j * 7 + 3) % 16) - 8) / 8.0));
+          std::vector<DT> refv(n);
+          for(Index i = 0; i < n; ++i)
+          {
+            LD s = 0; for(IT q = A.row_ptr()[i]; q < A.row_ptr()[i + 1]; ++q) s += LD(A.val()[q]) * LD(x(A.col_ind()[q]));
+            refv[i] = DT(s);
+          }
+          auto call = [&](DT alpha)
+          {
+            const Par q = par_of(opn, p, alpha);
+            BVec cv = conv_vector(q.field);
+            Assembly::BurgersScalarVectorAssemblyJob<Vec, SpaceT, BVec> vjob(y, x, cv, ctx.test, cub);
+            set_par(vjob, q);
+            dom.assemble(vjob);
+          };
+          const double rl = double(max_row_len(A));
+          call(DT(1));
+          vj::Value o = vj::Value::object(); o["r"] = r;
+          o["mv"] = cmp_arrays(r.c_str(), refv.data(), y.elements(), n, 1.0, 2 * tole * rl)["within"];
+          call(DT(-0.5));
+          o["ow"] = cmp_arrays(r.c_str(), refv.data(), y.elements(), n, -0.5, 4 * tole * rl)["within"];
+          o["acc"] = cmp_arrays(r.c_str(), refv.data(), y.elements(), n, 0.5, 4 * tole * rl)["within"];
+          o["probes"] = vj::Value::array();
+          vr.push(o);
+        }
+      }
+      obs["vr"] = vr;
       matrix_identities(ctx, job, A, mag, obs);
       vj::Value coup = vj::Value::object(); coup["done"] = false; obs["coup"] = coup;
       return obs;
@@ -256,7 +327,161 @@ namespace va
       if(name == "mass_b") { Assembly::Common::IdentityOperatorBlocked<dim> op; go(op); }
       else if(name == "laplace_b") { Assembly::Common::LaplaceOperatorBlocked<dim> op; go(op); }
       else if(name == "dudv_b") { Assembly::Common::DuDvOperatorBlocked<dim> op; go(op); }
+      else if(name == "ugrad_b") { UGradOperatorBlocked<dim> op; go(op); }
       else throw std::runtime_error("no blocked common operator " + name);
+    }
+
+    // ---- matrix-free routes (spec/Assembly.tla: MatrixFreeRoutes): y (+)= alpha * A x without a matrix ----------------
+    void run_vroute(BVec& y, const BVec& x, const std::string& route, const std::string& name, const std::vector<long long>& p, DT alpha,
+      const Cubature::DynamicFactory& cf, const String& cub)
+    {
+      if(route == "apply" || route == "apply2")
+      {
+        auto go = [&](auto& op)
+        {
+          if(route == "apply") Assembly::BilinearOperatorAssembler::apply1(y, x, op, ctx.test, cf, alpha);
+          else Assembly::BilinearOperatorAssembler::apply2(y, x, op, ctx.test, ctx.test, cf, alpha);
+        };
+        if(name == "dudv_b") { Assembly::Common::DuDvOperatorBlocked<dim> op; go(op); }
+        else if(name == "ugrad_b") { UGradOperatorBlocked<dim> op; go(op); }
+        else throw std::runtime_error("apply1/apply2 are not compiled for the blocked operator " + name);
+      }
+      else if(route == "burgersvec")
+      {
+        const Par q = par_of(name, p, DT(1));
+        Assembly::BurgersAssembler<DT, IT, dim> b; set_par(b, q);
+        BVec cv = conv_vector(q.field);
+        b.assemble_vector(y, cv, x, ctx.test, cf, alpha);
+      }
+      else if(route == "burgersjobvec")
+      {
+        const Par q = par_of(name, p, alpha);
+        BVec cv = conv_vector(q.field);
+        Assembly::BurgersBlockedVectorAssemblyJob<BVec, SpaceT, BVec> job(y, x, cv, ctx.test, cub);
+        set_par(job, q);
+        dom.assemble(job);
+      }
+      else if(route == "burgersjobself")
+      {
+        // the solution vector and the convection vector are one object (x is ignored: the argument is the field itself)
+        const Par q = par_of(name, p, alpha);
+        BVec cv = conv_vector(q.field);
+        Assembly::BurgersBlockedVectorAssemblyJob<BVec, SpaceT, BVec> job(y, cv, cv, ctx.test, cub);
+        set_par(job, q);
+        dom.assemble(job);
+      }
+#if C16_VOXEL
+      else if(route == "voxelvec")
+      {
+        if constexpr (voxel_ok)
+        {
+          const Par q = par_of(name, p, DT(1));
+          VoxelAssembly::VoxelBurgersAssembler<SpaceT, DT, IT> vox(ctx.test, coloring);
+          set_par(vox, q);
+          BVec cv = conv_vector(q.field);
+          vox.assemble_vector(y, cv, x, ctx.test, cf, alpha);
+        }
+        else throw std::runtime_error("voxel route is not compiled for this space");
+      }
+#endif
+      else throw std::runtime_error("matrix-free route " + route + " is not compiled into this harness");
+    }
+
+    static void bflat(const BVec& v, std::vector<DT>& out)
+    {
+      out.resize(v.size() * Index(dim));
+      for(Index i = 0; i < v.size(); ++i) { const auto b = v(i); for(int r = 0; r < dim; ++r) out[i * Index(dim) + Index(r)] = b[r]; }
+    }
+    // A x for the flattened block matrix A on bpattern (long double row sums), and per row the sum of |x_j|_1 over the pattern
+    void bmatvec(const std::vector<DT>& A, const BVec& x, std::vector<DT>& y, std::vector<double>& w) const
+    {
+      const Index n = bpattern.rows();
+      y.assign(n * Index(dim), DT(0)); w.assign(n, 0.0);
+      for(Index i = 0; i < n; ++i)
+      {
+        LD s[dim]; for(int r = 0; r < dim; ++r) s[r] = 0;
+        for(IT k = bpattern.row_ptr()[i]; k < bpattern.row_ptr()[i + 1]; ++k)
+        {
+          const auto xb = x(bpattern.col_ind()[k]);
+          for(int c = 0; c < dim; ++c) w[i] += std::fabs(double(xb[c]));
+          for(int r = 0; r < dim; ++r) for(int c = 0; c < dim; ++c) s[r] += LD(A[(Index(k) * Index(dim) + Index(r)) * Index(dim) + Index(c)]) * LD(xb[c]);
+        }
+        for(int r = 0; r < dim; ++r) y[i * Index(dim) + Index(r)] = DT(s[r]);
+      }
+    }
+    BVec zero_bvec() const
+    {
+      BVec y(ctx.test.get_num_dofs());
+      for(Index i = 0; i < y.size(); ++i) { typename BVec::ValueType z(DT(0)); y(i, z); }
+      return y;
+    }
+
+    // observations of the matrix-free routes of a blocked job; A = the flattened matrix of the reference route
+    vj::Value vroute_obs(const vj::Value& job, const std::string& name, const std::vector<long long>& p, const std::vector<DT>& A, double tole,
+      const Cubature::DynamicFactory& cf, const String& cub)
+    {
+      vj::Value vr = vj::Value::array();
+      if(!job.has("vroutes")) return vr;
+      const Index n = ctx.test.get_num_dofs();
+      // the generic argument: component-wise different, not smooth, dyadic
+      BVec x(n);
+      for(Index i = 0; i < n; ++i)
+      {
+        typename BVec::ValueType b;
+        for(int c = 0; c < dim; ++c) b[c] = DT(double(long((i * 7 + 3 + Index(5 * c)) % 16) - 8) / 8.0);
+        x(i, b);
+      }
+      const vj::Value& rs = job["vroutes"];
+      for(std::size_t k = 0; k < rs.size(); ++k)
+      {
+        const std::string r = rs[k].as_str();
+        vj::Value o = vj::Value::object(); o["r"] = r;
+        const bool self = (r == "burgersjobself");
+        const BVec xs = self ? conv_vector(par_of(name, p, DT(1)).field) : x.clone(LAFEM::CloneMode::Deep);
+        std::vector<DT> ref, got; std::vector<double> w;
+        bmatvec(A, xs, ref, w);
+        double rl = 1.0; for(double t : w) rl = std::max(rl, t);       // row-wise sum of |x_j|_1 over the pattern
+        const double xm = 1.0;
+        BVec y = zero_bvec();
+        run_vroute(y, xs, r, name, p, DT(1), cf, cub);
+        bflat(y, got);
+        vj::Value mv = cmp_arrays(r.c_str(), ref.data(), got.data(), Index(ref.size()), 1.0, 2 * tole * rl * xm);
+        o["mv"] = mv["within"];
+        // a second call with alpha = -1/2 into the filled vector: alpha * A x (overwrite) or y + alpha * A x (accumulate)
+        run_vroute(y, xs, r, name, p, DT(-0.5), cf, cub);
+        bflat(y, got);
+        double dow = 0, dac = 0;
+        for(std::size_t q = 0; q < ref.size(); ++q) { dow = std::max(dow, std::fabs(got[q] + 0.5 * ref[q])); dac = std::max(dac, std::fabs(got[q] - 0.5 * ref[q])); if(!std::isfinite(got[q])) dow = dac = HUGE_VAL; }
+        o["ow"] = (dow <= 4 * tole * rl * xm); o["acc"] = (dac <= 4 * tole * rl * xm);
+        note_margin(std::min(dow, dac), 4 * tole * rl * xm);
+        // ApplyBilinear: (v e_row)^T r(P) for the probe fields P of the job, as scaled integers
+        vj::Value probes = vj::Value::array();
+        if(!self)
+        {
+          const vj::Value& pl = job["probes"];
+          for(std::size_t f = 0; f < pl.size(); ++f)
+          {
+            const BVec P = conv_vector(int(pl[f]["field"].as_int()));
+            BVec yp = zero_bvec();
+            run_vroute(yp, P, r, name, p, DT(1), cf, cub);
+            std::vector<DT> dummy; bmatvec(A, P, dummy, w);      // w[i] = sum over the row pattern of |P_j|_1
+            vj::Value ids = vj::Value::array();
+            const vj::Value& il = pl[f]["ids"];
+            for(std::size_t q = 0; q < il.size(); ++q)
+            {
+              const auto& v = ctx.tvec(il[q]["v"].ints());
+              const int row = int(il[q]["row"].as_int()) - 1;
+              LD val = 0; LD W = 0;
+              for(Index i = 0; i < n; ++i) { val += LD(v[i]) * LD(yp(i)[row]); W += LD(std::fabs(v[i])) * LD(w[i]); }
+              ids.push(scaled(val, spec_scale(il[q]["mode"].as_str(), ctx.w.K, int(il[q]["fd"].as_int()), dim), tole * double(W)));
+            }
+            probes.push(ids);
+          }
+        }
+        o["probes"] = probes;
+        vr.push(o);
+      }
+      return vr;
     }
     void run_blocked(BMat& m, const std::string& route, const std::string& name, const std::vector<long long>& p, DT alpha,
       const Cubature::DynamicFactory& cf, const String& cub)
@@ -375,6 +600,7 @@ namespace va
         }
       }
       obs["twice"] = twice;
+      obs["vr"] = vroute_obs(job, name, p, A, tole, cf, cub);
       return obs;
     }
 
@@ -624,7 +850,7 @@ namespace va
         for(IT k = pattern.row_ptr()[i]; k < pattern.row_ptr()[i + 1]; ++k) if(pattern.col_ind()[k] == j) return S[std::size_t(m)].val()[k];
         return 0.0;
       };
-      vj::Value sc = vj::Value::array();
+      vj::Value sc = vj::Value::array(), vrobs = vj::Value::array();
       const vj::Value& sl = job["scales"];
       for(std::size_t z = 0; z < sl.size(); ++z)
       {
@@ -684,9 +910,72 @@ namespace va
         }
         o["rep"] = rep;
         sc.push(o);
+        // matrix-free: GradOperatorAssembler::assemble(blocked vector, scalar vector) adds scale * G x onto the vector
+        if(z + 1 == sl.size() && job.has("vroutes") && job["vroutes"].size() > 0)
+        {
+          typedef LAFEM::DenseVectorBlocked<DT, IT, dim> BV;
+          const Index np = pres.get_num_dofs(), nv = velo.get_num_dofs();
+          auto zero_bv = [&]() { BV y(np); for(Index i = 0; i < np; ++i) { typename BV::ValueType t(DT(0)); y(i, t); } return y; };
+          auto gx = [&](const std::vector<double>& x, std::vector<DT>& y, std::vector<double>& wr)
+          {
+            y.assign(np * Index(dim), DT(0)); wr.assign(np, 0.0);
+            for(Index i = 0; i < np; ++i)
+            {
+              LD a[dim]; for(int m = 0; m < dim; ++m) a[m] = 0;
+              for(IT k = G.row_ptr()[i]; k < G.row_ptr()[i + 1]; ++k)
+              {
+                wr[i] += std::fabs(x[G.col_ind()[k]]);
+                for(int m = 0; m < dim; ++m) a[m] += LD(G.val()[k][m][0]) * LD(x[G.col_ind()[k]]);
+              }
+              for(int m = 0; m < dim; ++m) y[i * Index(dim) + Index(m)] = DT(a[m]);
+            }
+          };
+          auto call = [&](BV& y, const std::vector<double>& x, DT scale)
+          {
+            Vec xv(nv); for(Index jx = 0; jx < nv; ++jx) xv(jx, DT(x[jx]));
+            Assembly::GradOperatorAssembler::assemble(y, xv, pres, velo, cf, scale);
+          };
+          auto flatv = [&](const BV& y, std::vector<DT>& out) { out.resize(np * Index(dim)); for(Index i = 0; i < np; ++i) { const auto t = y(i); for(int m = 0; m < dim; ++m) out[i * Index(dim) + Index(m)] = t[m]; } };
+          std::vector<double> x(nv); for(Index jx = 0; jx < nv; ++jx) x[jx] = double(long((jx * 7 + 3) % 16) - 8) / 8.0;
+          std::vector<DT> ref, got; std::vector<double> wr;
+          gx(x, ref, wr);
+          double rl = 1.0; for(double t : wr) rl = std::max(rl, t);
+          const double asd = std::max(1.0, std::fabs(double(sd)));
+          BV y = zero_bv(); call(y, x, sd); flatv(y, got);
+          vj::Value v1 = vj::Value::object(); v1["r"] = "gradopvec";
+          v1["mv"] = cmp_arrays("gradopvec", ref.data(), got.data(), Index(ref.size()), 1.0, 2 * CK * EPS * mag * asd * rl)["within"];
+          call(y, x, DT(-0.5) * sd); flatv(y, got);
+          v1["ow"] = cmp_arrays("gradopvec", ref.data(), got.data(), Index(ref.size()), -0.5, 4 * CK * EPS * mag * asd * rl)["within"];
+          v1["acc"] = cmp_arrays("gradopvec", ref.data(), got.data(), Index(ref.size()), 0.5, 4 * CK * EPS * mag * asd * rl)["within"];
+          // ApplyBilinear: (q e_row)^T gradopvec(u) / scale = int d_row(u) q
+          vj::Value ids = vj::Value::array();
+          std::map<std::vector<long long>, std::pair<std::vector<DT>, std::vector<double>>> ycache;
+          std::map<std::vector<long long>, std::vector<double>> qcache;
+          const vj::Value& il = job["vids"];
+          for(std::size_t q = 0; q < il.size(); ++q)
+          {
+            const auto ue = il[q]["u"].ints(), qe = il[q]["v"].ints();
+            if(!ycache.count(ue))
+            {
+              const std::vector<double> U = interpolate(w, velo, VS_::name(), ue);
+              BV yu = zero_bv(); call(yu, U, sd);
+              std::vector<DT> fy; flatv(yu, fy);
+              std::vector<DT> dummy; std::vector<double> wu; gx(U, dummy, wu);
+              ycache[ue] = std::make_pair(fy, wu);
+            }
+            if(!qcache.count(qe)) qcache[qe] = interpolate(w, pres, PS_::name(), qe);
+            const auto& yu = ycache[ue]; const auto& Q = qcache[qe];
+            const int row = int(il[q]["row"].as_int()) - 1;
+            LD val = 0, W = 0;
+            for(Index i = 0; i < np; ++i) { val += LD(Q[i]) * LD(yu.first[i * Index(dim) + Index(row)]); W += LD(std::fabs(Q[i])) * LD(yu.second[i]); }
+            ids.push(scaled(val / LD(sd), spec_scale(il[q]["mode"].as_str(), w.K, int(il[q]["fd"].as_int()), dim), CK * EPS * mag * double(W)));
+          }
+          v1["ids"] = ids; v1["probes"] = vj::Value::array();
+          vrobs.push(v1);
+        }
       }
       vj::Value j = vj::Value::object(), obs = vj::Value::object();
-      obs["sc"] = sc;
+      obs["sc"] = sc; obs["vr"] = vrobs;
       bool nz = false; for(int m = 0; m < dim; ++m) for(Index k = 0; k < nnz; ++k) if(S[std::size_t(m)].val()[k] != 0.0) nz = true;
       obs["nz"] = nz;
       j["spec"] = job; j["obs"] = obs;
